@@ -28,3 +28,29 @@ PROPS["C10"] = dict(
         assumptions=["HDF5 1.10 attribute I/O is correct", "the base file is produced by the library under test"],
     ),
 )
+
+PROPS["C07"] = dict(
+    level="exploration",
+    budget_s=dict(quick=90, thorough=600),
+    parts=[dict(name="grid", bin="C07", flavour="plain")],
+    manifest=dict(
+        engine="E2", design_ref="5 / C07",
+        technique="exhaustive input grid on real dimensions of a real file vs. reference search over the axis coordinates",
+        text="The property is a pure function of (axis, position, rule). The check enumerates a fixed family of axes (112 sampled "
+             "axes with decimal and binary intervals and offsets, 8 tick vectors, 4 set and 3 data-frame axes), every sample index "
+             "up to N (300 quick / 10000 thorough), the positions on / one ulp beside / between / below / beyond the coordinates, all "
+             "five rules, and all start/end pairs over blocks of neighbouring candidates in both range modes, through the scalar, pair "
+             "and vector overloads and util::positionToIndex. Complete over that grid; says nothing about axes outside the family.",
+        note="Reference = binary search over the coordinates the library itself reports (checked to equal offset+i*interval / the ticks "
+             "given and to be strictly ascending); exact double comparisons. Axes that are not strictly ascending in double are skipped "
+             "and counted."),
+    evidence=dict(
+        keys=dict(evaluations=("sum", [("count", "scalar_calls"), ("count", "pair_calls"), ("count", "roundtrips")]),
+                  distinct_nontrivial=("distinct", "outcomes")),
+        rule="grid: axis family x sample index 0..N x {x_i, x_i-1ulp, x_i+1ulp, midpoint, below axis, beyond axis} x 5 PositionMatch rules; "
+             "start/end pairs = all ordered pairs of the candidates around three anchor blocks x 2 RangeMatch modes; "
+             "distinct_nontrivial = distinct (axis kind, position class, rule, kind of answer) tuples observed.",
+        bound=dict(quick="N=300 indices per sampled axis, pair blocks of 6 indices", thorough="N=10000, pair blocks of 12 indices"),
+        assumptions=["positions are compared as doubles, exactly", "axis coordinates are those the library reports (positionAt/axis/ticks), cross-checked against offset+i*interval"],
+    ),
+)
